@@ -138,8 +138,8 @@ func namingSpecials() []special {
 // (s:has-key "m" (s:has-key "x")).  Other bare constraints work as member
 // types ((s:of (s:gt 1))); key constraints "return the key name on success"
 // (docstring) and the member loops of s:of / s:has-key / s:may-have-key test
-// success with IsNil, so they can never match.  Asserted only when
-// C14_KEY_AS_TYPE is set (pending the lead's classification).
+// success; a member loop that tests success with IsNil can never match them
+// (the defect repaired by /repo commit 3a11768).
 func keyAsTypeSpecials() []special {
 	var out []special
 	inner := []*Node{hasKey("a"), hasKey("a", typ("int")), mayKey("a", typ("int")), mayKey("b")}
